@@ -97,3 +97,52 @@ GENERATORS = {
     'nbdime.diffing.lcs.diff_from_lcs': gen_diff_from_lcs,
     'nbdime.patching.patch_list': gen_patch_list,
 }
+
+
+def _independent_snakes(A, B):
+    "maximal runs of an LCS alignment under ==, computed here (not by nbdime)"
+    G = _grid(A, B, operator.__eq__)
+    R = _llcs(G)
+    x, y, pairs = len(A), len(B), []
+    while x > 0 and y > 0:
+        if G[x - 1][y - 1]:
+            x -= 1
+            y -= 1
+            pairs.append((x, y))
+        elif R[x][y] == R[x - 1][y]:
+            x -= 1
+        else:
+            y -= 1
+    pairs.reverse()
+    snakes = []
+    for i, j in pairs:
+        if snakes and snakes[-1][0] + snakes[-1][2] == i and snakes[-1][1] + snakes[-1][2] == j:
+            snakes[-1] = (snakes[-1][0], snakes[-1][1], snakes[-1][2] + 1)
+        else:
+            snakes.append((i, j, 1))
+    return snakes
+
+
+def gen_snakes_diff():
+    from nbdime.diffing.config import DiffConfig
+    items = [{'a': 0}, {'a': 1}, [0], [0, 1], {'a': 0, 'b': 'x\n'}]
+    for A in _seqs(items[:4], 3):
+        for B in _seqs(items[:4], 2):
+            yield [copy.deepcopy(A), copy.deepcopy(B), _independent_snakes(A, B), '', DiffConfig()]
+            # also a deliberately coarser alignment: aligned items need not be equal, the differ patches them
+            if A and B and type(A[0]) is type(B[0]):
+                yield [copy.deepcopy(A), copy.deepcopy(B), [(0, 0, 1)], '', DiffConfig()]
+
+
+def gen_multilevel():
+    from nbdime.diffing.config import DiffConfig
+    items = [{'a': 0}, {'a': 1}, [0], [0, 1]]
+    for A in _seqs(items, 3):
+        for B in _seqs(items, 2):
+            yield [copy.deepcopy(A), copy.deepcopy(B), '', DiffConfig()]
+
+
+GENERATORS.update({
+    'nbdime.diffing.snakes.compute_diff_from_snakes': gen_snakes_diff,
+    'nbdime.diffing.generic.diff_sequence_multilevel': gen_multilevel,
+})
